@@ -30,11 +30,23 @@ RFC keys  `genKeys_eq_rfc` (the model's `key_update` chain from the RFC's genera
           `hello_establishes(_rfc)`: the `set_tls_decryptors` call triggered by the last hello message establishes `Est`
           with exactly the RFC keys (adapter soundness `C02Pipeline.after_tls_hp_exact` included).
 Partial   `quic_connection_exact_partial`: all hypotheses in RFC terms except `Est` of the post-handshake state.
-NOT proved: `quic_handshake_establishes` (that the Handshake-level packets after the last `set_tls_decryptors` —
-          Certificate … Finished, ACKs — preserve `Est`, and the walk from `new` to that call): `C02Session.
-          handshake_levels_exact` needs `TlsStable`, a for-all-parser-states hypothesis the concrete `QuicTlsSession` does not
-          satisfy (same non-fit as `TlsQuiet`, `C02Pipeline.tls_quiet_rtt1_counterexample`); it has to be re-proved with
-          hypotheses local to the history, as `step_one_rtt_nc` does here for the 1-RTT phase.
+Handshake `quic_handshake_establishes`, `quic_connection_exact` (= handshake, then the 1-RTT theorem; `hprev` discharged).
+          Spec: `Spec/QuicConnection.lean` (`DgH`: datagrams of coalesced Initial / Handshake packets, `longOf`, `LongShape`),
+          `HsPkOk` / `HsDgOk` / `HsDgs` here (they name the keys of each level). Exactness of the Initial / Handshake levels is
+          re-proved with hypotheses LOCAL to the history instead of `C02Session.TlsStable` (false for the concrete parser):
+            `step_long_eq`    any `Params`: an emitted long-header packet's `decrypt_packet` IS `handle_frame` over its frames;
+            `afterTls_hs`     `set_tls_decryptors` with the connection's key-log lines: never raises, idempotent — same suite
+                              ⇒ the same RFC keys (`Keyed`), whatever was installed before (ClientHello: first offered suite);
+            `PTrace`          THE local hypothesis: on this history's CRYPTO inputs the concrete `QuicTlsSession` never raises,
+                              and whenever it leaves `new_data` set the client random is the connection's and the suite the
+                              selected one (except after a client Initial: first offered suite) — what `C02Hello.
+                              client_hello_parsed / server_hello_parsed / encrypted_extensions_parsed` and `C02Crypto.
+                              crypto_any_order_partial` say about conformant hellos; NOT yet derived from them here;
+            `hs_packet_step`, `hs_turn`, `hs_loop`, `hs_feed_step`, `hs_feed_rest`: packet, coalescing loop, datagram, history.
+          Further hypotheses: the key-log lines of this client random at EVERY handshake `handle_packet` call (not only from
+          the ServerHello on: a ClientHello processed without them makes `dev_quic_keys` raise inside `handle_crypto_frame`,
+          `new_data` stays set and the rest of that packet's frames is skipped — not modelled in the proof); Handshake packets
+          only after a server CRYPTO frame completed a hello (`HsPkOk.keys`); no 0-RTT, no Retry.
 CRYPTO in 1-RTT: excluded (`DgOk.noCrypto`). Without the restriction the statement is FALSE for the code as it is: a 1-RTT
           CRYPTO frame carrying an EncryptedExtensions- or ServerHello-typed message makes `set_tls_decryptors` run again
           and resets the Application generations (replayed on the real tool: data after a key update is lost).
